@@ -35,8 +35,8 @@ LEVEL_NOTE = 'Trusted: bvf/refmodel.py Layouter + encoder; generator exclusions 
 
 @st.composite
 def _cases(draw, tier):
-    cfg = draw(G.layout_isa(zones=True, blocks=True))
-    b, feats = G.general_program(draw, cfg)
+    cfg = draw(G.layout_isa(zones=True, blocks=True, redefine_global=True))
+    b, feats = G.general_program(draw, cfg, extra=['include'])
     return {'isa': cfg, 'items': b.items, 'lo': b.lo, 'fill': draw(st.sampled_from([0, 0xEE])), 'feats': sorted(feats)}
 
 
@@ -100,7 +100,7 @@ def execute(case, ctx):
         want = None
     argv = ['compile', '-c', fname, '-o', 'out.bin', '-s', str(lo), '-e', str(hi), '-f', str(case['fill']), 'main.asm']
     res = runner.run_forked(argv, files)
-    detail = {'source': files['main.asm'], 'general': cfg['general'], 'predefined': cfg.get('predefined'), 'argv': argv,
+    detail = {'source': files['main.asm'], 'included': {k: v for k, v in files.items() if k.endswith('.asm') and k != 'main.asm'}, 'general': cfg['general'], 'predefined': cfg.get('predefined'), 'argv': argv,
               'model': verdict if verdict == 'accepted' else 'rejected: ' + lay, 'run': res.brief(),
               'model_lines': [(ln['addr'], ln['size'], G.render_item(ln['item'])) for ln in lay.lines][:60]
               if verdict == 'accepted' else None}
